@@ -51,7 +51,6 @@ class Builder:
     def __init__(self):
         self.parts, self.n, self.expected, self.junk_start = [], 0, [], None
         self.layout = {}
-        self.comment_src = {}       # comment val -> (text as printed, marker width)
 
     def emit(self, s):
         self.parts.append(s)
@@ -298,7 +297,6 @@ def gen_properties(rng, nrec, exotic=False):
                 style = pick(rng, b, "comment_style", ["#", "!", "# ", "mixed"])
                 rendered = [(rng.choice("#!") if style == "mixed" else style) + l for l in lines]
                 cval = "\n".join(l[1:] for l in rendered)
-                b.comment_src[cval] = ("\n".join(rendered), 1)
                 b.item()
                 b.emit("\n".join(rendered) + "\n")
                 if cm == "attached":
@@ -494,7 +492,6 @@ def gen_ini(rng, nrec, exotic=False):
                 style = pick(rng, b, "comment_style", [";", "#", "; ", "mixed"])
                 rendered = [(rng.choice(";#") if style == "mixed" else style) + l for l in lines]
                 cval = "\n".join(l[1:] for l in rendered)
-                b.comment_src[cval] = ("\n".join(rendered), 1)
                 b.item()
                 b.emit("\n".join(rendered) + "\n")
                 if cm == "attached":
@@ -585,7 +582,6 @@ def gen_inc(rng, nrec, exotic=False):
                 lines = comment_lines(rng, b, exotic)
                 rendered = ["# " + l for l in lines]
                 cval = "\n".join(l[2:] for l in rendered)
-                b.comment_src[cval] = ("\n".join(rendered), 2)
                 b.item()
                 b.emit("\n".join(rendered) + "\n")
                 if cm == "attached":
@@ -1058,33 +1054,9 @@ def check_case(chk, case):
             alt = po_alt(case)
             if compare(alt, got) is None:
                 sig = "po-comment-attached-across-one-blank-line"
-        if case.get("exotic") and fmt != "po" and compare(splitlines_alt(case), got) is None:
-            sig = "offsetcomment-val-splits-at-exotic-line-boundary"
         chk.fail(sig, {k: case[k] for k in ("format", "text", "expected", "layout") if k in case},
                  {"what": d[0], **d[1], "got_all": got})
     return es
-
-
-def splitlines_alt(case):
-    """expectation under the deviation: OffsetComment.val strips the marker per
-    str.splitlines(True) line, and str.splitlines also splits at VT, FF, FS, GS, RS, NEL,
-    LS, PS, so the characters after such a boundary are taken for a marker"""
-    src = case.get("comment_src", {})
-
-    def alt(v):
-        if v in src:
-            text, width = src[v]
-            return "".join(line[width:] for line in text.splitlines(True))
-        return v
-    out = []
-    for e in case["expected"]:
-        if e[0] == "C":
-            out.append(["C", alt(e[1])])
-        elif e[0] == "E" and e[4] is not None:
-            out.append(e[:4] + [alt(e[4])])
-        else:
-            out.append(e)
-    return out
 
 
 def po_alt(case):
@@ -1100,7 +1072,6 @@ def make_case(fmt, rng, nrec, exotic=False):
     case = {"format": fmt, "text": text, "expected": expected, "layout": b.layout, "records": nrec}
     if exotic:
         case["exotic"] = True
-        case["comment_src"] = b.comment_src
     if fmt == "po" and getattr(b, "one_blank_idx", None):
         # positions (in the expected list) of the comments printed with ONE blank line after them
         case["one_blank_detached"] = len(b.one_blank_idx)
@@ -1287,18 +1258,17 @@ def run(chk, runner_ok):
             impl_w = [v if fmt == "ftl" else [0, v] for v in impl]
             chk.correspond(f"PARSE-VAL-{fmt}", texts, impl_w, [wrap(o) for o in outs],
                            classify=lambda t, fmt=fmt: None)
-    deviation_streams(chk)
+    extra_streams(chk)
     direct_suites(chk, model)
     chk.notes += [
         "generator limits: DTD comments are printed within the parser's own comment character class "
         "(BMP, no control characters); Android garbage is well-formed non-<string> elements (free text "
         "inside <resources> is whitespace to the parser, a malformed document is one junk entry); Fluent "
         "garbage lines do not start with '{' or '.' (those continue the preceding message by the grammar)",
-        "deviation streams (run last, reported under their own signatures): PO comments followed by exactly "
-        "one blank line (signature po-comment-attached-across-one-blank-line) and properties/ini/inc comments "
-        "containing VT FF FS GS RS NEL LS PS (signature offsetcomment-val-splits-at-exotic-line-boundary); "
-        "a failing file is attributed to such a signature only when the parse equals the expectation "
-        "recomputed under exactly that deviation",
+        "extra streams (run last): properties/ini/inc comments containing VT FF FS GS RS NEL LS PS (ordinary "
+        "comment characters; failures are plain violations) and PO comments followed by exactly one blank "
+        "line (signature po-comment-attached-across-one-blank-line; a failing file gets that signature only "
+        "when the parse equals the expectation recomputed under exactly that deviation)",
     ]
     chk.trusted += [
         "html.unescape (DTD val): oracle parameter of the model, table computed by CPython per case",
@@ -1307,18 +1277,19 @@ def run(chk, runner_ok):
     ]
 
 
-def deviation_streams(chk):
-    """two layout families kept apart from the main stream (they run last, so that their
-    failures cannot crowd out others in the replay file): comments containing line
-    boundaries other than newline (properties, ini, inc: OffsetComment.val splits at them),
-    and PO comments followed by exactly one blank line"""
+def extra_streams(chk):
+    """two more layout families, run after the main stream: properties / ini / inc comments
+    containing the line boundaries of str.splitlines other than newline (VT FF FS GS RS NEL
+    LS PS: ordinary characters of a comment, only "\\n" separates comment lines) -- failures
+    there are plain violations; and PO comments followed by exactly ONE blank line, whose
+    attachment is the listed finding po-comment-attached-across-one-blank-line"""
     rng = chk.rng
     for i in range(chk.n(40, 400)):
         for fmt in ("po", "properties", "ini", "inc"):
             c = make_case(fmt, rng, 1 + i % 4, exotic=True)
             check_case(chk, c)
             chk.evaluations += 1
-            chk.hist("deviation_stream", fmt)
+            chk.hist("extra_stream", fmt)
 
 
 def direct_suites(chk, model):
